@@ -625,6 +625,11 @@ func TestEBNFGrammarsEndToEnd(t *testing.T) {
 			m = genEBNF(t)
 		}
 		src := m.Text()
+		if rapid.IntRange(0, 2).Draw(t, "drawnLayout") == 0 {
+			// a drawn layout with comments between the tokens: the table is built for what the text says
+			toks := m.Tokens()
+			src, _ = ref.Render(toks, gen.Seps(t, toks))
+		}
 		n := rec.Pick(5, 6)
 		cls, nt, err := checkEBNF(m, src, n, cyclicListed)
 		if strings.HasPrefix(cls, "excluded") || cls == "too_large" {
